@@ -100,18 +100,18 @@ def build_programs(run):
         items.append((p, both if not quick else [both[(i // stride) % 2]], i % 5 == 0, i % 3 == 0))
     info['unusual_forms'] = {'space': len(ex), 'stride': stride, 'offset': off, 'exhaustive': stride == 1}
     # 2. random unusual programs under ALL 16 configurations
-    n_un = 48 if quick else 400
+    n_un = 48 if quick else 260
     for i, p in enumerate(c17_gen.unusual_programs(rng, n_un)):
         items.append((p, cfgs, True, i % 2 == 0))
     # 3. control-flow skeletons + typed random programs (the shared C01 class), rotating configurations
     skinfo = {}
-    sk = list(progen.skeleton_programs(4 if quick else 5, 3, cap=90 if quick else 700, rng=rng, info=skinfo))
+    sk = list(progen.skeleton_programs(4 if quick else 5, 3, cap=90 if quick else 500, rng=rng, info=skinfo))
     info['skeletons'] = skinfo
     for i, p in enumerate(sk):
         k = 2 if quick else 4
         cs = [cfgs[(i * 5 + j * 7) % 16] for j in range(k)]
         items.append((p, cs, i % 4 == 0, i % 4 == 0))
-    rp = list(progen.random_programs(rng, 30 if quick else 250, size=14))
+    rp = list(progen.random_programs(rng, 30 if quick else 160, size=14))
     for i, p in enumerate(rp):
         cs = [cfgs[(i * 3 + j * 5) % 16] for j in range(4 if quick else 8)]
         items.append((p, cs, i % 3 == 0, i % 3 == 0))
@@ -318,7 +318,8 @@ def evaluate(run, recs, sources, label):
                 'error': r.get('error'), 'reasons': sorted(reasons)}
         run.fail('%s: %s' % (r['fails'][0][0], str(r['fails'][0][1])[:200]), case, cls)
         if cls is None:
-            unattributed[r['fails'][0][0].split(':')[0]] += 1
+            for w in fkinds:
+                unattributed[w] += 1
     if run.driver_ok:
         run.oblige('hypotheses:every converter call satisfies tmplOk, bindingsWf, usesOk and (except the factory wrapper, whose '
                    'parameter nodes are inserted once and uncopied) argsOk — outside failing cases' + label, 'checker',
@@ -341,7 +342,7 @@ def generated_correspondence(run):
     import c17_templates as ct
     from malt.pyct import templates
     log, cases = [], []
-    nrand = 300 if run.tier == 'quick' else 3000
+    nrand = 300 if run.tier == 'quick' else 2500
     with ct.capture(log):
         for key, text, make in ct.generated_cases(run.rng, nrand):
             n0 = len(log)
@@ -525,6 +526,27 @@ def check(run):
                          '+ verified ctxOk on every returned tree + %d distinct captured template calls and the positions x bindings '
                          'product against the model' % (len(recs), run.cov.get('real_conversions', {}).get('template_calls_distinct', 0)))
     run.cov['exhaustive'] = False
+    run.cov['runtime_checks'] = {
+        'status': 'RUN on the real objects of every conversion, not proved (node identity, CPython compile/unparse/parse, import system)',
+        'node_identity': 'every ast.AST object reachable through the fields of the tree returned by transform_ast (and of the wrapped '
+                         'module tree given to loader.load_ast) is visited once; exempt: instances of expr_context/operator/unaryop/boolop/'
+                         'cmpop (CPython\'s parser shares one instance per kind across all trees)',
+        'compile': 'compile(ast.Module(body=[tree])) after ast.fix_missing_locations — runs CPython\'s AST validator (contexts included)',
+        'reparse': 'struct_dump(ast.parse(parser.unparse(tree)).body) == struct_dump([tree]); struct_dump ignores: fields whose name '
+                   'starts with "_" (malt keeps annotations in a field ___pyct_anno), type_comment, line/column attributes, and any field '
+                   'that is None/missing/empty on that side; compares node classes, all other fields in order, constants by (type, repr), '
+                   'Constant.kind when set, contexts and operators by class',
+        'to_code': 'api.to_graph(f) then api.to_code(f) (same cache entry): to_code text == textwrap.dedent(lines of the FunctionDef named '
+                   'like the converted function, at co_firstlineno, in the file co_filename of its code object) exactly (modulo trailing '
+                   'newline); whitespace-normalised comparison only as a fallback that is counted (to_code_ws_only) — textwrap.dedent is '
+                   'limited by docstring continuation lines (to_code_not_fully_dedented counts those); the function in that file == the '
+                   'tree transform_ast returned (struct_dump); the running code object == the one compiled from the file text; the file '
+                   'written by loader.load_source == parser.unparse(nodes)',
+        'load': 'any exception after transform_ast returned (unparse, import of the generated module, create_source_map incl. '
+                '"Inconsistent ASTs detected") is a failing case; exceptions inside the passes are counted, not judged (other properties)',
+        'source_map': 'keys naming the loaded file must lie inside it and map into the original function; keys naming other files '
+                      '(ctx-singleton ORIGIN pollution, see C12) are counted only',
+    }
 
 
 def replay(run, path):
